@@ -261,6 +261,16 @@ DupAndSuppress ==
              SeqE("of", <<A, Opt(SeqE("of", <<SPt, SPt, X, X>>))>>)}
   IN {<<x, y>> : x \in p, y \in q} \cup {<<x, y>> : x \in ps, y \in qs} \cup {<<x, y>> : x \in pt, y \in qt}
 
+\* trims in the mode that allows any run, over operands that return SEVERAL alternatives of different lengths (the end of every
+\* alternative moves behind the run that follows IT), and left recursion through such a trim.  Every grammar starts with an
+\* untrimmed terminal: "the tree starts at the first byte" (C04) is a statement about grammars that do not skip leading blanks
+TrimNl ==
+  {<<SeqE("of", <<A, RTrim(AnyE(<<Bt, SeqE("of", <<RTrim(Bt, "nl"), A>>)>>), "nl"), Bt>>)>>,
+   <<SeqE("of", <<RTrim(AnyE(<<A, SeqE("of", <<A, A>>)>>), "nl"), LTrim(Bt, "nl")>>)>>,
+   <<AnyE(<<SeqE("of", <<RTrim(Ref(1), "nl"), Bt>>), A>>)>>,
+   <<SeqE("of", <<A, LTrim(Opt(A), "nl"), RTrim(SeqE("many1", <<Bt>>), "nl"), A>>)>>,
+   <<SeqE("of", <<RTrim(Ref(2), "nl"), Bt>>), AnyE(<<A, SeqE("of", <<A, SPt>>), SeqE("of", <<A, A>>)>>)>>}
+
 \* Optional directly over (curtailed) left-recursive calls, two nonterminals that meet at the same position from different contexts
 OptLR ==
   LET n1 == {AnyE(<<A, Opt(Ref(2))>>), Opt(SeqE("of", <<Ref(1), Ref(2), A>>)), Opt(SeqE("of", <<Ref(1), Ref(2)>>)),
